@@ -2,8 +2,8 @@
 (* Model-checking harness for Revocation.tla: behaviour generation. *)
 EXTENDS Revocation, Json
 
-\* one witness behaviour per distinct state reached by a verification or a serve (Hist = Ghost = TRUE configs only)
-Emit == (Hist /\ lastV # NoV) => PrintT(ToJson(hist))
+\* one witness behaviour (shortest path) per distinct state (Hist = TRUE configs only); in -simulate mode: every prefix
+Emit == Hist => PrintT(ToJson(hist))
 \* split Entry transaction: one witness per distinct final allocation
 EmitAlloc == (Hist /\ Procs # {} /\ nIssued = MaxCreds /\ Quiet) => PrintT(ToJson(hist))
 \* symmetry of the check configs whose Issuers / Nodes are model values
